@@ -27,9 +27,9 @@ for p in props:
 m = {
     "version": 1,
     "setup_cmd": "harness/setup",
-    "hooks": {"guard": "WARNER_PYTHON_ECDSA_VERIF", "enable": "no source hooks: checks import /repo/src in-process; C18/C20 use sys.settrace and a threading shim",
+    "hooks": {"guard": "WARNER_PYTHON_ECDSA_VERIF", "enable": "no source hooks and no guarded code: checks import /repo/src in-process (VERIF_REPO selects another tree); C18 uses sys.monitoring INSTRUCTION events and real threads under harness/lib/dsched.py, C20 a private copy of _rwlock.py with threading replaced by a scheduler shim",
               "baseline_off_cmd": "cd /repo && /venv/bin/python -m pytest -ra -q -p no:cacheprovider --timeout=900 --continue-on-collection-errors",
-              "source_commits": [], "add_only": True},
+              "source_commits": []},
     "engines": [{"name": "lean4-proof+tie", "path": "lean/ + harness/",
                  "serves_properties": [c["property_id"] for c in checks],
                  "kind_free_text": "Lean 4 theorems over a model (Generated/* translated from the source on every run, Model/* hand-written and run against the real code through a line-protocol driver), axiom audit, failing-input search"}],
